@@ -362,6 +362,12 @@ impl Bound {
         }
     }
 
+    /// The same binding with another graph object over the same symbolic context (e.g. a graph perturbed by the library);
+    /// the explicit semantics is NOT adjusted, so only differential checks may use it.
+    pub fn with_graph(&self, name: &str, graph: SymbolicAsyncGraph) -> Bound {
+        Bound { name: name.to_string(), spec: self.spec.clone(), aeon: self.aeon.clone(), bn: self.bn.clone(), k: self.k, graph, n: self.n, cols: self.cols.clone(), col_vals: self.col_vals.clone(), invalid_valuations: self.invalid_valuations }
+    }
+
     pub fn colour_singleton(&self, ci: usize) -> GraphColoredVertices {
         let mut masks = vec![0; self.cols.len()];
         masks[ci] = full_mask(self.n);
